@@ -21,6 +21,10 @@ CHECKS = {
          "Reader items (text, label, name, span, comments) compared with the layout engine's ground truth for free and "
          "fixed form, and drawn get/put histories compared with a list model including object identity on re-read.",
          TRUST, "DESIGN.md 5 C12"),
+ "C06": ("mutation-based fuzzing of generated programs + token soup + invalid UTF-8, exception-bucketing oracle with a deterministic work budget",
+         "1-3 mutations of generated valid programs (all layouts), random token soup and byte-level corruption, for both "
+         "standards, comment settings and reader kinds; anything other than a tree or FortranSyntaxError is a failure.",
+         TRUST + " The time bound is represented by a deterministic count of rule constructions.", "DESIGN.md 5 C06"),
  "C01": ("property-based round-trip (Hypothesis-driven program generator; parse/print/parse fixpoint oracle)",
          "Random programs from a structured Fortran generator are parsed, printed, re-parsed and re-printed; "
          "trees and texts must agree. Exploration is the right level: the domain is an infinite grammar.",
@@ -28,6 +32,6 @@ CHECKS = {
 }
 NOT_APPLICABLE = {
  pid: "check not built yet (work in progress; see DESIGN.md 5)" for pid in
- [ "C06", "C07", "C08", "C09", "C10", "C11", "C13", "C14", "C15", "C16", "C17",
+ [ "C07", "C08", "C09", "C10", "C11", "C13", "C14", "C15", "C16", "C17",
   "C18", "C19", "C20"]
 }
